@@ -53,6 +53,7 @@ def hunt4_rules(chk, repo):
         chk.violation("C18.close.tls", rel if rel is not None else tc, "BaseConnector._release(key, protocol, should_close=True)", "if should_close and key.is_ssl and self._ssl_shutdown_timeout == 0: protocol.abort()",
                       "the connection of a timed-out or cancelled https request to a stalled peer is close()d gracefully: asyncio waits up to 30 s for the peer's close_notify, the socket is in neither _conns nor _acquired, survives session.close() and `limit` no longer bounds the open sockets; ssl_shutdown_timeout=0 (`immediate abort`) is honoured only by connector.close()")
     tls_release_rule(chk, repo, "C18.close.tls")
+    hunt5_rules(chk, repo)
     # ---- C18.scope.total (buffered data): a read that takes buffered data without waiting still looks at the deadline ---------------------------------
     sr = repo.cls(STREAMS, "StreamReader")
     nt = 0
@@ -72,6 +73,24 @@ def hunt4_rules(chk, repo):
             chk.violation("C18.scope.total", takes[0].ast, K.short(takes[0].ast, 60), "self._timer.assert_timeout() before self._read_nowait_chunk(...)",
                           f"StreamReader.{mname}() takes buffered data through _read_nowait_chunk() without looking at the request timer (the other read methods go through _read_nowait(), which asserts it): with data flowing steadily `async for line in resp.content` never waits, so ClientTimeout(total=...) is never enforced", path=g.fmt_path(p))
     chk.expect_count("C18.scope.total", nt, 2, "public StreamReader coroutines that call the consumption primitive directly")
+
+
+def hunt5_rules(chk, repo):
+    """Rule written after the fifth defect hunt (F318)."""
+    # ---- C18.readtimer (interim): after an interim response the timer is re-armed whoever was waiting for it ----------------------------------------------------
+    # data_received() drops the timer with every complete message, an interim `100 Continue` included.  start() re-arms it when the request
+    # has been sent and the final response is outstanding - also when the 100 was the one the writer had stopped waiting for.
+    st = repo.func(REQ, "ClientResponse.start")
+    arms = [c for c in prog.calls_in(st.node) if norm.raw(c.func).endswith(".start_timeout")]
+    if not arms:
+        chk.analysis_error("C18.readtimer: the re-arm of the read timer after an interim response was not found in ClientResponse.start")
+    for c in arms:
+        lits = [l for cl_ in PC.pc(K.stmt_of(c), raw=True) for l in cl_]
+        if any("self._continue" in l.text for l in lits):
+            chk.violation("C18.readtimer", c, K.short(c), "an `if` of its own, not the `elif` of `if self._continue is not None`",
+                          "the re-arm after an interim response is skipped when the request used expect100: a server takes 1.5 s to send `100 Continue` - longer than the client's 1 s hold-back -, the writer has uploaded the body and armed the timer by then, the interim response drops it, and start() assumes the writer will re-arm: the final response is waited for without sock_read (still pending after 9 s with sock_read=2)")
+        else:
+            chk.ok("C18.readtimer", c, "ClientResponse.start(): the timer is re-armed after an interim response whenever the request is sent and nothing else is outstanding - independently of expect100")
 
 
 def tls_release_rule(chk, repo, rule):
